@@ -605,8 +605,8 @@ func init() {
 func init() {
 	Scenarios = append(Scenarios, Scenario{Name: "F35-world-usable-after-a-rejected-65th-query", Props: []string{"C07"}, Run: func() []string {
 		// 64 queries may be open at once; a 65th is rejected with a panic. After recovering from it the 64 open queries can
-		// still be closed and the world unlocks. (A blocked Close is detected by scheduling steps, not by wall-clock time: the
-		// closing goroutine needs no time slice worth mentioning.)
+		// still be closed and the world unlocks. (A blocked Close is recognised by the state of the closing goroutine - waiting for a mutex that nobody can
+		// release - not by elapsed time, see completes.)
 		var out []string
 		w := ecs.NewWorld(4)
 		m := ecs.NewMap1[u.P8](w)
@@ -619,17 +619,11 @@ func init() {
 		if p := try(func() { f.Query() }); p == nil {
 			out = append(out, "a 65th simultaneous query was accepted")
 		}
-		var done atomic.Bool
-		go func() {
+		if !completes(func() {
 			for i := range qs {
 				qs[i].Close()
 			}
-			done.Store(true)
-		}()
-		for i := 0; i < 2_000_000 && !done.Load(); i++ {
-			runtime.Gosched()
-		}
-		if !done.Load() {
+		}) {
 			return append(out, "after the rejected 65th query, closing the 64 open queries blocks for ever (the lock's mutex is still held)")
 		}
 		if w.IsLocked() {
@@ -705,6 +699,17 @@ func init() {
 			}
 			if n := len(ecs.ResourceIDs(w)); n != 3 {
 				out = append(out, fmt.Sprintf("ResourceIDs lists %d IDs for three registered resource types", n))
+			}
+			// a pointer type is a resource type of its own, too: *P8 is not P8, through either lookup
+			idp, idv := ecs.ResourceID[*u.P8](w), ecs.ResourceID[u.P8](w)
+			if rp := ecs.ResourceTypeID(w, reflect.TypeFor[*u.P8]()); rp != idp || idp == idv {
+				out = append(out, fmt.Sprintf("resource type *P8: ResourceID[T] gives %v, ResourceTypeID(reflect type) gives %v, P8 has %v", idp, rp, idv))
+			}
+			if tp, ok := ecs.ResourceType(w, idp); !ok || tp != reflect.TypeFor[*u.P8]() {
+				out = append(out, fmt.Sprintf("ResourceType(ID of *P8) = %v, %v", tp, ok))
+			}
+			if rv := ecs.ResourceTypeID(w, reflect.TypeFor[u.P8]()); rv != idv {
+				out = append(out, fmt.Sprintf("resource type P8: ResourceID[T] gives %v, ResourceTypeID(reflect type) gives %v", idv, rv))
 			}
 			return out
 		}},
@@ -859,4 +864,99 @@ func tupleNames(cs []int) []string {
 		r = append(r, u.Types[c].Name)
 	}
 	return r
+}
+
+func init() {
+	Scenarios = append(Scenarios, Scenario{Name: "S3-dump-of-a-world-without-entities-leaves-it-unlocked", Props: []string{"C07", "C17"}, Run: func() []string {
+		// DumpEntities iterates a query of its own: whatever the world holds, it is unlocked again afterwards
+		var out []string
+		check := func(w *ecs.World, what string) {
+			var d ecs.EntityDump
+			if p := try(func() { d = w.Unsafe().DumpEntities() }); p != nil {
+				out = append(out, fmt.Sprintf("%s: DumpEntities panicked: %v", what, p))
+				return
+			}
+			if w.IsLocked() || w.Stats().Locked {
+				out = append(out, fmt.Sprintf("%s: the world is left locked by DumpEntities (%d alive entities in the dump)", what, len(d.Alive)))
+			}
+			if p := try(func() { w.RemoveEntity(w.NewEntity()) }); p != nil {
+				out = append(out, fmt.Sprintf("%s: a structural operation after DumpEntities panicked: %v", what, p))
+			}
+		}
+		w := ecs.NewWorld(4)
+		check(w, "fresh world")
+		e := w.NewEntity()
+		check(w, "world with one entity")
+		w.RemoveEntity(e)
+		check(w, "world whose entities were all removed")
+		w.NewEntity()
+		w.Reset()
+		for i := 0; i < 70 && len(out) == 0; i++ {
+			check(w, fmt.Sprintf("reset world, dump %d", i+1))
+		}
+		return out
+	}})
+}
+
+func init() {
+	Scenarios = append(Scenarios, Scenario{Name: "B10-fresh-filters-after-every-archetype-creation", Props: []string{"C03", "C13"}, Run: func() []string {
+		// One typed tuple per filter arity has two entities. Then archetypes are created one component at a time (the
+		// registry's internal version counter passes through every value up to 256 and beyond), and after each step a
+		// *fresh* filter of every arity must find its two entities - whatever a filter caches on first use must not depend
+		// on how many archetypes were created before it.
+		var out []string
+		w := ecs.NewWorld(4)
+		type pick struct {
+			t    int
+			want int
+		}
+		var picks []pick
+		seen := map[int]bool{}
+		for t := range typed.Tuples {
+			tp := &typed.Tuples[t]
+			if tp.NewFilter == nil || seen[len(tp.Comps)] {
+				continue
+			}
+			seen[len(tp.Comps)] = true
+			tm := tp.NewMap(w, false)
+			var rel []ecs.Relation
+			for j, c := range tp.Comps {
+				if u.Types[c].IsRel {
+					rel = append(rel, ecs.RelIdx(j, ecs.Entity{}))
+				}
+			}
+			vals := make([]int64, len(tp.Comps))
+			tm.NewEntity(vals, rel)
+			tm.NewEntity(vals, rel)
+			picks = append(picks, pick{t: t})
+		}
+		for i := range picks {
+			q := typed.Tuples[picks[i].t].NewFilter(w, false).Query(nil)
+			picks[i].want = q.Count() // at least 2; tuples may overlap
+			q.Close()
+			if picks[i].want < 2 {
+				out = append(out, fmt.Sprintf("tuple %d: %d entities found at the start, at least 2 expected", picks[i].t, picks[i].want))
+			}
+		}
+		for k := 0; k < 300 && len(out) == 0; k++ {
+			var id ecs.ID
+			if try(func() { id = ecs.TypeID(w, u.Filler(4000+k)) }) != nil {
+				break // registry full (64 types in the tiny build)
+			}
+			w.Unsafe().NewEntity(id)
+			for _, p := range picks {
+				f := typed.Tuples[p.t].NewFilter(w, false)
+				q := f.Query(nil)
+				n, it := q.Count(), 0
+				for q.Next() {
+					it++
+				}
+				if n != p.want || it != p.want {
+					out = append(out, fmt.Sprintf("after %d further single-component archetypes a fresh Filter%d counts %d and visits %d entities, want %d", k+1, len(typed.Tuples[p.t].Comps), n, it, p.want))
+					break
+				}
+			}
+		}
+		return out
+	}})
 }
